@@ -114,5 +114,43 @@ def specOf : Step → DBM.Step
   | .close => .close
   | .reopen o => .reopen o
 
+/-! ## evaluation helpers for the non-vacuity examples -/
+
+instance (cfg : SstCfg) (kvs : List KV) : Decidable (FitsKV cfg kvs) := by
+  unfold FitsKV; exact inferInstance
+
+instance (P : Params) (m : Mem.MemStore) : Decidable (FitsMem P m) := by
+  unfold FitsMem; exact inferInstance
+
+instance decStepOk (P : Params) (c : State) : (st : Step) → Decidable (StepOk P c st)
+  | .putB _ _ rot h => inferInstanceAs (Decidable (1 ≤ h ∧ (rot = true → FitsMem P c.r)))
+  | .putS _ _ rot h => inferInstanceAs (Decidable (1 ≤ h ∧ (rot = true → FitsMem P c.r)))
+  | .delB _ h => inferInstanceAs (Decidable (1 ≤ h))
+  | .delS _ h => inferInstanceAs (Decidable (1 ≤ h))
+  | .get _ => isTrue trivial
+  | .rotate => inferInstanceAs (Decidable (FitsMem P c.r))
+  | .flush => inferInstanceAs (Decidable (FitsMem P c.r))
+  | .compact =>
+    match h : compactPlan P c with
+    | .ok (some pl) => by unfold StepOk; rw [h]; exact inferInstanceAs (Decidable (FitsKV P.cfg pl.out))
+    | .ok none => by unfold StepOk; rw [h]; exact isTrue trivial
+    | .error _ => by unfold StepOk; rw [h]; exact isTrue trivial
+  | .close => inferInstanceAs (Decidable (FitsMem P c.r ∧ FitsMem P c.w))
+  | .reopen _ => isTrue trivial
+
+def decRunOk (P : Params) : (steps : List Step) → (c : State) → Decidable (RunOk P c steps)
+  | [], _ => isTrue trivial
+  | st :: rest, c =>
+    match h : step P c st with
+    | .ok (c', _, _) =>
+      have := decRunOk P rest c'
+      by unfold RunOk; rw [h]; exact inferInstance
+    | .error _ => by unfold RunOk; rw [h]; exact inferInstance
+
+instance (P : Params) (c : State) (steps : List Step) : Decidable (RunOk P c steps) := decRunOk P steps c
+
+/-- no compression at all, a bloom filter that answers exactly -/
+def plainParams : Params := { comps := fun _ => none, mkBloom := fun keys => some fun k => keys.contains k }
+
 end Stack
 end SST
